@@ -12,6 +12,9 @@ import (
 	"time"
 
 	"github.com/ipfs/go-cid"
+	"github.com/ipld/go-ipld-prime"
+	"github.com/ipld/go-ipld-prime/node/bindnode"
+	"github.com/ipld/go-ipld-prime/schema"
 
 	"github.com/ucan-wg/go-ucan/pkg/args"
 	"github.com/ucan-wg/go-ucan/pkg/command"
@@ -73,7 +76,23 @@ type Inv struct {
 	// same object for every invocation of a run that starts with the same arguments - a caller deriving several
 	// invocations from a common argument set), the remaining ones through WithArgument
 	CommonArgs int `json:"common_args,omitempty"`
+	// TypedArg: one more argument "pt" whose value is a schema-typed node (bindnode over a Go struct with tuple
+	// representation) - a caller's domain type handed over as is
+	TypedArg bool `json:"typed_arg,omitempty"`
 }
+
+type point struct {
+	X int64
+	Y int64
+}
+
+var pointType = func() schema.Type {
+	ts, err := ipld.LoadSchemaBytes([]byte("type Point struct {\n  x Int\n  y Int\n} representation tuple\n"))
+	if err != nil {
+		panic(err)
+	}
+	return ts.TypeByName("Point")
+}()
 
 // EncKV is an encrypted metadata entry (key = 32 x KeyByte).
 type EncKV struct {
@@ -370,6 +389,9 @@ func BuildInvShared(iv Inv, prf []cid.Cid, reg map[string]*args.Args) (*invocati
 	for _, e := range rest {
 		opts = append(opts, invocation.WithArgument(e.K, e.V.Node()))
 	}
+	if iv.TypedArg {
+		opts = append(opts, invocation.WithArgument("pt", bindnode.Wrap(&point{3, 4}, pointType)))
+	}
 	if iv.Aud >= 0 {
 		opts = append(opts, invocation.WithAudience(Prin(iv.Aud).DID))
 	}
@@ -518,6 +540,7 @@ func Covers(a, b string) bool {
 type Rules struct {
 	R           [10]bool
 	PolicyUnspec bool   // some statement's truth is not fixed by the property text
+	UnspecOps   []string
 	FalseStmts  [][2]int // (link, statement index) of unsatisfied statements
 }
 
@@ -595,6 +618,7 @@ func Eval(c Case) Rules {
 			ok, spec := StmtHolds(s, data)
 			if !spec {
 				r.PolicyUnspec = true
+				r.UnspecOps = append(r.UnspecOps, fmt.Sprintf("%s/%d", s.Op, len(s.Sub)))
 				continue
 			}
 			if !ok {
